@@ -25,6 +25,8 @@ pub mod stats_collector;
 #[cfg(feature = "t38")]
 pub mod t38;
 pub mod transports;
+#[cfg(rustrtc_verif)]
+pub mod verif_sched;
 
 pub use config::{
     ApplicationCapability, AudioCapability, BundlePolicy, CertificateConfig, IceCredentialType,
